@@ -55,7 +55,7 @@ def run_translators():
 
 def coq_sources():
     out = []
-    for sub in ("model", "proofs", "props", "gen", "extract"):
+    for sub in ("model", "proofs", "props", "gen"):
         d = os.path.join(COQ, sub)
         if os.path.isdir(d):
             for f in sorted(os.listdir(d)):
@@ -120,11 +120,41 @@ def build_coq(targets, timeout=1800):
         rc, out = sh(["make", "-j", str(NPROC)] + targets, cwd=COQ, timeout=timeout)
         return rc == 0, out
 
+def gen_extract_v():
+    """coq/extract/roots/*.roots -> .build/ocaml/Extract.v (Separate Extraction: one .ml per Coq library,
+    so that every stream file shares the same OCaml types)."""
+    rdir = os.path.join(COQ, "extract", "roots")
+    imports, roots = [], []
+    for f in sorted(os.listdir(rdir)):
+        if not f.endswith(".roots"): continue
+        for l in open(os.path.join(rdir, f)):
+            l = l.split("#")[0].strip()
+            if l.startswith("import "):
+                m = l[7:].strip()
+                if m not in imports: imports.append(m)
+            elif l.startswith("root "):
+                r = l[5:].strip()
+                if r not in roots: roots.append(r)
+    v = ["(* generated by vlib/core.py from coq/extract/roots/*.roots — ExtrOcamlBasic only *)",
+         "Require Extraction.", "Require Import ExtrOcamlBasic.", "Extraction Language OCaml."]
+    for m in imports:
+        v.append(f"Require {m}.")
+    v.append("Separate Extraction\n  " + "\n  ".join(roots) + ".")
+    return "\n".join(v) + "\n"
+
+def ocaml_dep_order(d, files):
+    """topological order of .ml files in d using ocamldep -sort"""
+    rc, out = sh(["ocamlfind", "ocamldep", "-sort"] + files, cwd=d)
+    if rc != 0:
+        raise RuntimeError("ocamldep failed: " + out)
+    return out.split()
+
 def build_runner():
     """Extract the model and compile the OCaml runner (only when inputs changed)."""
     with Lock("ocaml"):
         os.makedirs(OCAML, exist_ok=True)
-        srcs = [os.path.join(COQ, "extract", "Extract.v")] + \
+        rdir = os.path.join(COQ, "extract", "roots")
+        srcs = [os.path.join(rdir, f) for f in sorted(os.listdir(rdir))] + \
                [os.path.join(COQ, s) for s in coq_sources() if s.startswith("model/") or s.startswith("gen/")] + \
                [os.path.join(VERIF, "runner", f) for f in sorted(os.listdir(os.path.join(VERIF, "runner"))) if f.endswith(".ml")]
         h = hashlib.sha256()
@@ -137,18 +167,28 @@ def build_runner():
         ok, out = build_coq([s[:-2] + ".vo" for s in coq_sources() if s.startswith("model/") or s.startswith("gen/")])
         if not ok:
             return False, out
-        rc, out1 = sh(["coqc", "-Q", COQ, "V", os.path.join(COQ, "extract", "Extract.v")], cwd=OCAML, timeout=900)
+        for f in os.listdir(OCAML):
+            if f.endswith((".ml", ".mli", ".cmi", ".cmx", ".o", ".cmo")):
+                os.remove(os.path.join(OCAML, f))
+        open(os.path.join(OCAML, "Extract.v"), "w").write(gen_extract_v())
+        rc, out1 = sh(["coqc", "-Q", COQ, "V", "Extract.v"], cwd=OCAML, timeout=900)
         if rc != 0:
             return False, out1
         mls = sorted(f for f in os.listdir(os.path.join(VERIF, "runner")) if f.endswith(".ml"))
         for f in mls:
             shutil.copy(os.path.join(VERIF, "runner", f), OCAML)
-        order = ["util.ml"] + [f for f in mls if f not in ("util.ml", "main.ml")] + ["main.ml"]
-        rc, out2 = sh(["ocamlfind", "ocamlopt", "-O2", "-w", "-a", "model.mli", "model.ml"] + order + ["-o", "runner"],
-                      cwd=OCAML, timeout=900)
+        allml = sorted(f for f in os.listdir(OCAML) if f.endswith(".ml") or f.endswith(".mli"))
+        try:
+            order = ocaml_dep_order(OCAML, allml)
+        except RuntimeError as e:
+            return False, str(e)
+        # stream files are only referenced through registration: make sure they are linked, main last
+        for f in mls:
+            if f not in order: order.append(f)
+        order = [f for f in order if f != "main.ml"] + ["main.ml"]
+        rc, out2 = sh(["ocamlfind", "ocamlopt", "-O2", "-w", "-a"] + order + ["-o", "runner"], cwd=OCAML, timeout=900)
         if rc != 0:
-            rc, out2 = sh(["ocamlfind", "ocamlopt", "-w", "-a", "model.mli", "model.ml"] + order + ["-o", "runner"],
-                          cwd=OCAML, timeout=900)
+            rc, out2 = sh(["ocamlfind", "ocamlopt", "-w", "-a"] + order + ["-o", "runner"], cwd=OCAML, timeout=900)
         if rc != 0:
             return False, out2
         open(stamp, "w").write(h.hexdigest())
